@@ -51,6 +51,10 @@ static void vf_sample(const char *fmt, ...)
     printf("\n");
 }
 
+static int vf_nsample = 0;
+/* literal sample of a case this run actually executed: the first few calls in worker 0 (or the parent) are written out */
+#define VF_SAMPLE_CASE(max, ...) do { if (vf_worker_id <= 0 && vf_nsample < (max)) { vf_nsample++; vf_sample(__VA_ARGS__); } } while (0)
+
 static const char *vf_hex(const void *p, size_t n)
 {
     static char bufs[8][2 * 300 + 8];
